@@ -105,7 +105,11 @@ def specWalk : List SOp → List SOp → List String → Walk → Nat → Option
     let pre' := pre ++ [op]
     let next := fun (w : Walk) => specWalk pre' ops outs.tail w (pos + 1)
     match op with
-    | .decl cols => next { w with cols := some cols }
+    | .decl cols =>
+      if o == "ok" then next { w with cols := some cols, expectSame := none }
+      else if (SState.run SState.init pre).1.stored.all (conformsTuple cols) then
+        some ("unclassified", s!"item {pos}: a schema over conforming data was refused ({o})")
+      else next { w with expectSame := w.lastRows }
     | .insert ts =>
       match w.cols with
       | none => next { w with expectSame := none }
@@ -121,7 +125,12 @@ def specWalk : List SOp → List SOp → List String → Walk → Nat → Option
         let good := ts.all (conformsTuple cols)
         if good != (o == "ok") then some ("unclassified", s!"item {pos}: API validation answered {o} for a {if good then "conforming" else "non-conforming"} batch")
         else next w
-    | .upd _ => next { w with expectSame := none }
+    | .upd new =>
+      match w.cols with
+      | some cols =>
+        if o == "rej" && conformsTuple cols new then some ("unclassified", s!"item {pos}: update with a conforming tuple rejected")
+        else next { w with expectSame := if o == "rej" then w.lastRows else none }
+      | none => next { w with expectSame := none }
     | .fact t =>
       match w.cols, parseRows o with
       | some cols, some rows =>
